@@ -314,6 +314,44 @@ theorem foreign_prefix_witness :
       | _ => false) = true := by
   decide
 
+/-- the full-strength reading of "only the credential's issuer can cause this": a stored revocation whose subject is a
+    credential's id names that credential's issuer. It is FALSE of the code (`issuer_only_stmt_false`, known finding
+    C11:foreign-id-prefix, replayed on the real verifier by harness/corpus/C11/v_foreign_prefix.jsonl); what holds is
+    `issuer_only_partial`: it is true of every credential whose id is prefixed by its issuer. -/
+def IssuerOnlyStmt : Prop :=
+  ∀ (K : KeyEnv) (n n' : Node) (r : Revocation) (c : Cred),
+    registerRevocation K n r = .ok n' → c.id = some r.subject → r.issuer = c.issuer
+
+theorem issuer_only_stmt_false : ¬ IssuerOnlyStmt := by
+  intro h
+  have := h exKeys (exNode "https://n0") { exNode "https://n0" with netRevs := [exRevByB] } exRevByB
+    { id := some "did:nuts:B#1", issuer := "did:nuts:A", statuses := none } (by decide) rfl
+  exact absurd this (by decide)
+
+/-- `issuer_only_partial`: the part of `IssuerOnlyStmt` that holds. Missing: credentials whose id is not prefixed by their
+    issuer (accepted by the default validator; refused by the two Nuts validators, see `nuts_validators_enforce_prefix`). -/
+theorem issuer_only_partial (K : KeyEnv) (n n' : Node) (r : Revocation) (c : Cred) (id : String)
+    (h : registerRevocation K n r = .ok n') (hid : c.id = some id) (hs : id = r.subject) (hpre : prefixOf id = c.issuer) :
+    r.issuer = c.issuer := by
+  obtain ⟨⟨_, _, _, h2, _⟩, _⟩ := issuer_only K n n' r h
+  rw [← h2, ← hs, hpre]
+
+/-- the validators of NutsOrganizationCredential / NutsAuthorizationCredential refuse a credential whose id is not prefixed
+    by its issuer before any revocation check: for those types "only the issuer" holds without further assumption -/
+theorem nuts_validators_enforce_prefix (E : Env) (i : Bool) (w : World) (c : Cred)
+    (h : ∀ e, (verifyFull E i w c true).1 ≠ .err e) : ∃ id, c.id = some id ∧ prefixOf id = c.issuer := by
+  unfold verifyFull validateNutsId at h
+  cases hid : c.id with
+  | none => simp [hid] at h
+  | some id =>
+    refine ⟨id, rfl, ?_⟩
+    by_cases hp : prefixOf id = c.issuer
+    · exact hp
+    · simp [hid, hp] at h
+
+example : (verifyFull exEnv false exWorld { id := some "did:nuts:B#1", issuer := "did:nuts:A", statuses := none } true).1 = .err "validation" := by decide
+example : (verifyFull exEnv false exWorld { id := some "did:nuts:A#1", issuer := "did:nuts:A", statuses := none } true).1 = .ok := by decide
+
 /-! ### 6. status list revocation: effective at once on the issuing node, permanent on every node that refreshed -/
 
 /-- `revoked_forever` (status list, issuing node): from the moment a position is revoked, the node that manages the list
